@@ -199,7 +199,8 @@ def _move_return_edges(
     new_func = _function_of_block(module, new_target)
 
     function_blocks = _auxdata.function_blocks.get(module)
-    assert function_blocks is not None
+    if not function_blocks:
+        return
 
     if old_func:
         for block in function_blocks[old_func]:
